@@ -105,24 +105,11 @@ pub fn enumerate(thorough: bool) -> (Vec<Scen>, Vec<u32>, Value) {
     add_group(
         "single",
         "1 request; 16 framings x {body(), stream} x {no close, FIN at k, reset at k for every k in 0..=response length}; every byte offset offered as read cut; + dropped/partial consumers",
-        single.clone(),
-        1,
+        single,
+        if thorough { 2 } else { 1 },
         &mut scs,
         &mut bounds,
     );
-    if thorough {
-        // same scenarios with structural cut points, two deviations
-        let list: Vec<Scen> = single
-            .iter()
-            .cloned()
-            .map(|mut s| {
-                s.every_offset = false;
-                s.group = "single-d2".into();
-                s
-            })
-            .collect();
-        add_group("single-d2", "the single-request scenarios again with structural cut points and two deviations", list, 2, &mut scs, &mut bounds);
-    }
 
     // ---- big bodies ---------------------------------------------------------------------------
     let mut big = Vec::new();
@@ -243,7 +230,7 @@ pub fn enumerate(thorough: bool) -> (Vec<Scen>, Vec<u32>, Value) {
         "seq2",
         "2 sequential requests to one authority, limit 1; first: 16 framings x {body(), stream, dropped after head, partial then dropped} x {open, FIN/reset after the complete response, FIN mid-body / 1 before end / at head end / in head} x leftover {none, junk, stale response}; second: cl5 | chunked | HEAD read fully",
         seq2,
-        if thorough { 2 } else { 1 },
+        if thorough { 3 } else { 2 },
         &mut scs,
         &mut bounds,
     );
@@ -303,7 +290,7 @@ pub fn enumerate(thorough: bool) -> (Vec<Scen>, Vec<u32>, Value) {
         "seq3",
         "3 sequential requests, limit 2; each: {cl5, chunked, cl5+close, HEAD} x {read fully, dropped after head, partial then dropped} (third consumer only 'fully' in quick); thorough adds leftover variants",
         seq3,
-        1,
+        if thorough { 2 } else { 1 },
         &mut scs,
         &mut bounds,
     );
